@@ -154,6 +154,17 @@ CHECKS = {
                      "parameters at lower/init/upper-ish levels plus true box corners); numerically singular cases are counted and excluded; "
                      "documented safeguards (distance jitter, warp rescale, 1e-5 joint-sample jitter, AddJitterOp ladder) are part of the reference.",
                 technique="bounded-exhaustive enumeration of a finite lattice and of operation sequences against an independent dense reference (no sampling)"),
+    "C16": dict(engine="schedx", category="model_checking", design_ref="§2 C16",
+                text="Crash-point exploration with restored twins: every state of a digest-deduplicated BFS over event histories "
+                     "(suggest, report, complete, fail) of a real scheduler, plus every prefix of fixed-policy spine histories, is a "
+                     "crash point; there the scheduler is restored by a dill round trip and, for random / grid / GP single- and "
+                     "multi-fidelity searchers, by get_state + clone_from_state on a freshly constructed searcher; original and "
+                     "restored object are driven by every continuation of length <= h and by fixed-policy continuations until trial "
+                     "budget or configuration space is exhausted, and must give identical suggestions, decisions and exceptions.",
+                note="Bounded: W<=3, T<=6, h=3 (quick) / 4 (thorough), 2 for GP searchers with a fitted surrogate; crash points "
+                     "per configuration capped (reported); only the scheduler is dill-pickled, not the whole Tuner; float "
+                     "hyperparameters of suggestions compared to 1e-5 relative (GP parameter round trip is exact to an ulp), rest exact.",
+                technique="explicit-state model checking over crash points: BFS over event histories, restored twin vs uninterrupted twin on every bounded continuation"),
 }
 
 NOT_YET = {}
